@@ -1,0 +1,52 @@
+//go:build verif
+
+package trie
+
+// Read-only view of the in-memory node graph of a Trie for the C17 correspondence harness
+// (which subtrees are resolved / hash nodes, cached hashes, cache generations, dirty flags).
+// Nothing here writes to the trie or to the database.
+
+// VerifNode is one node of the in-memory graph.
+type VerifNode struct {
+	Path  []byte // hex path from the root (nibbles, 16 = terminator)
+	Kind  byte   // 's' short, 'f' full, 'v' value, 'h' hash node
+	Key   []byte // short node: its hex key
+	Value []byte // value node: the value
+	Hash  []byte // hash node: the hash; short/full: the cached hash (nil if none)
+	Gen   uint16 // short/full: cache generation
+	Dirty bool   // short/full: dirty flag
+	Slot  int    // index in the parent full node, -1 otherwise
+}
+
+// VerifWalk visits the in-memory nodes in pre-order (children of a full node in slot order,
+// nil children skipped) without resolving anything. An empty trie visits nothing.
+func (t *Trie) VerifWalk(visit func(VerifNode)) {
+	verifWalk(t.root, nil, -1, visit)
+}
+
+func verifWalk(n node, path []byte, slot int, visit func(VerifNode)) {
+	p := append([]byte{}, path...)
+	switch n := n.(type) {
+	case nil:
+		return
+	case valueNode:
+		visit(VerifNode{Path: p, Kind: 'v', Value: append([]byte{}, n...), Slot: slot})
+	case hashNode:
+		visit(VerifNode{Path: p, Kind: 'h', Hash: append([]byte{}, n...), Slot: slot})
+	case *shortNode:
+		visit(VerifNode{Path: p, Kind: 's', Key: append([]byte{}, n.Key...), Hash: append([]byte(nil), n.flags.hash...),
+			Gen: n.flags.gen, Dirty: n.flags.dirty, Slot: slot})
+		verifWalk(n.Val, append(p, n.Key...), -1, visit)
+	case *fullNode:
+		visit(VerifNode{Path: p, Kind: 'f', Hash: append([]byte(nil), n.flags.hash...),
+			Gen: n.flags.gen, Dirty: n.flags.dirty, Slot: slot})
+		for i, c := range n.Children {
+			if c != nil {
+				verifWalk(c, append(p, byte(i)), i, visit)
+			}
+		}
+	}
+}
+
+// VerifCacheGen returns the current cache generation and limit.
+func (t *Trie) VerifCacheGen() (uint16, uint16) { return t.cachegen, t.cachelimit }
